@@ -117,7 +117,17 @@ func init() {
 		"github.com/gofrs/uuid/v5.NewV4": inUUIDNewV4,
 		"os.Getenv":                      inGetenv,
 		"gopkg.in/robfig/cron.v2.Parse": func(fr *frame, a []value) (value, bool) {
-			// crontab strings are validated before Add (documented precondition): any spec parses
+			// model of the crontab grammar's outer shape: 5 or 6 whitespace separated
+			// fields or an @descriptor (the field grammar itself is robfig/cron's business);
+			// native replay uses the real parser
+			spec, ok := a[0].(string)
+			if !ok {
+				spec = fr.m.concretizeStr(a[0])
+			}
+			nf := len(strings.Fields(spec))
+			if !(strings.HasPrefix(spec, "@") || nf == 5 || nf == 6) {
+				return tuple{iface{}, fr.m.errIface("Expected 5 or 6 fields, found " + strconv.Itoa(nf) + ": " + spec)}, true
+			}
 			t := fr.m.namedType("gopkg.in/robfig/cron.v2", "SpecSchedule")
 			cell := zero(t)
 			return tuple{iface{t: types.NewPointer(t), v: &cell}, iface{}}, true
